@@ -214,6 +214,14 @@ func (g *gen) request() (map[string]any, meaning) {
 				} else {
 					callN++
 					id := fmt.Sprintf("toolu_%02d", callN)
+					switch rng.Intn(6) {
+					case 0: // vLLM-style id echoed back by a client
+						id = fmt.Sprintf("chatcmpl-tool-%032x", rng.Uint64()) + fmt.Sprint(callN)
+					case 1:
+						id = fmt.Sprintf("call_%d_%s", callN, strings.Repeat("z", 30+rng.Intn(60)))
+					case 2:
+						id = fmt.Sprintf("id %d/ü:%%", callN)
+					}
 					name := "f"
 					if len(toolNames) > 0 {
 						name = toolNames[rng.Intn(len(toolNames))]
